@@ -57,7 +57,8 @@ AddGene(src, dst, w, mut, fc, tr) ==
        /\ g' = [g EXCEPT !.genes = Append(@, [inn |-> LastInn + 1 + (Len(g.genes) % 2) * 2, src |-> src, dst |-> dst,
                                               rec |-> fl[1], en |-> fl[2], w |-> w, mut |-> mut, tr |-> tr])]
     /\ UNCHANGED <<mode, phase, x>>
-Pick(n) == IF n = 1 THEN {<<a>> : a \in NodeIds} ELSE {<<a, b>> \in NodeIds \X NodeIds : a # b}
+\* (a module may list the same node twice: a signal multiplied with itself)
+Pick(n) == IF n = 1 THEN {<<a>> : a \in NodeIds} ELSE NodeIds \X NodeIds
 AddMod(act, ins, outs, en, mut, tr) ==
     /\ phase = "mods" /\ Len(g.mods) < MaxMods
     /\ g' = [g EXCEPT !.mods = Append(@, [id |-> Len(g.nodes) + Len(g.mods) + 1, inn |-> LastInn + 1 + Len(g.mods), mut |-> mut,
@@ -110,7 +111,8 @@ Init == \/ /\ "genome" \in Modes /\ mode = "genome" /\ phase = "traits" /\ g = E
         \/ /\ "org" \in Modes /\ mode = "org" /\ phase = "emit" /\ g = Empty
            /\ x \in [fit : OrgFits, gen : OrgGens, hf : {ZERO, 2}, pcc : BOOLEAN, g : {PoolG(k) : k \in 1 .. PoolSize}]
         \/ /\ "pop" \in Modes /\ mode = "pop" /\ phase = "emit" /\ g = Empty
-           /\ \E ks \in SeqsUpTo(1 .. PoolSize, MaxPop) : x = [i \in DOMAIN ks |-> WithId(ks[i], i - 1)]
+           \* genome ids: all different, or repeating (0, 1, 0, ...: a population merged from two runs - an id is not an identity)
+           /\ \E ks \in SeqsUpTo(1 .. PoolSize, MaxPop), m \in {2, MaxPop + 1} : x = [i \in DOMAIN ks |-> WithId(ks[i], (i - 1) % m)]
         \/ /\ "popsp" \in Modes /\ mode = "popsp" /\ phase = "emit" /\ g = Empty
            /\ \E ks \in SeqsUpTo(1 .. PoolSize, MaxPop) \ {<<>>} :
                 \E cut \in DOMAIN ks, wins \in [DOMAIN ks -> BOOLEAN], fits \in {f \in [DOMAIN ks -> DOMAIN ks] : \A i, j \in DOMAIN ks : f[i] = f[j] => i = j} :
